@@ -23,11 +23,30 @@ const (
 	psFirst = iota
 	psLast
 	psAbsent
+	psMiddle // after the first field option of the call (with one option: after it)
 )
+
+var psNames = [...]string{"first", "after the field options", "absent", "after the first field option"}
+
+// separators other than "." a call may configure for the names of its DATA.
+// Field option paths stay dotted (statement: "a dotted field path"). No key and
+// no field path of the workload contains one of them, so the trees mean the
+// same under every separator.
+var otherSeps = []string{"/", "::", "_"}
 
 // modes are the special dimensions of one case.
 type modes struct {
-	ps int // placement of PathSep(".")
+	ps  int    // placement of the PathSep option
+	sep string // its separator ("" iff ps == psAbsent)
+
+	// folded spelling of the data (sixth wave): object-valued settings are
+	// written as keys joined with sep ("a/b": v instead of a: {b: v})
+	fold     bool
+	foldSeed int64
+
+	// set by classify for the call it looks at: the call gives the statement's
+	// result when its separator is replaced by "."
+	sepDecides bool
 
 	num      int               // index into numOptions, -1: no numeric names
 	numLate  bool              // the option stands after the field options
@@ -58,7 +77,18 @@ func drawModes(r *rand.Rand) *modes {
 			m.ps = psLast
 		case x < 8:
 			m.ps = psAbsent
+		case x < 11:
+			m.ps = psMiddle
 		}
+	}
+	m.sep = "."
+	if r.Intn(5) == 0 {
+		m.sep = otherSeps[r.Intn(len(otherSeps))]
+	}
+	m.fold = r.Intn(3) == 0
+	m.foldSeed = r.Int63()
+	if m.ps == psAbsent {
+		m.sep, m.fold = "", false // without PathSep names are not split at all
 	}
 	return m
 }
@@ -70,6 +100,14 @@ func (m *modes) String() string {
 		s += " PathSep after the field options"
 	case psAbsent:
 		s += " no PathSep"
+	case psMiddle:
+		s += " PathSep after the first field option"
+	}
+	if m.sep != "." && m.sep != "" {
+		s += fmt.Sprintf(" PathSep(%q)", m.sep)
+	}
+	if m.fold {
+		s += fmt.Sprintf(" [object-valued settings of the data partly spelled as keys joined with %q]", m.sep)
 	}
 	if m.num >= 0 {
 		s += fmt.Sprintf(" numeric names %v kept by %s", m.numMap, numOptions[m.num].name)
@@ -119,16 +157,103 @@ func (m *modes) options(gopts, fieldOpts []ucfg.Option) []ucfg.Option {
 	}
 	var opts []ucfg.Option
 	if m.ps == psFirst {
-		opts = append(opts, ucfg.PathSep("."))
+		opts = append(opts, ucfg.PathSep(m.sep))
 	}
 	opts = append(opts, early...)
 	opts = append(opts, gopts...)
-	opts = append(opts, fieldOpts...)
+	for i, f := range fieldOpts {
+		opts = append(opts, f)
+		if i == 0 && m.ps == psMiddle {
+			opts = append(opts, ucfg.PathSep(m.sep))
+		}
+	}
+	if len(fieldOpts) == 0 && m.ps == psMiddle {
+		opts = append(opts, ucfg.PathSep(m.sep))
+	}
 	opts = append(opts, late...)
 	if m.ps == psLast {
-		opts = append(opts, ucfg.PathSep("."))
+		opts = append(opts, ucfg.PathSep(m.sep))
 	}
 	return opts
+}
+
+// otherSep: the call configures a separator other than ".".
+func (m *modes) otherSep() bool { return m.sep != "." && m.sep != "" }
+
+// afterOtherSep: the i-th field option of a call stands behind a PathSep with
+// a separator other than ".".
+func (m *modes) afterOtherSep(i int) bool {
+	return m.otherSep() && (m.ps == psFirst || (m.ps == psMiddle && i >= 1))
+}
+
+// toGo is the Go value handed to Merge for the tree n: nested maps and slices,
+// and in fold mode some object-valued settings spelled as keys joined with the
+// call's separator, at any depth, also several levels in one key. The spelling
+// of a tree is the same in every call of the case.
+func (m *modes) toGo(n *model.Node) interface{} {
+	if !m.fold || m.sep == "" {
+		return n.ToGo()
+	}
+	c := 0
+	return m.spell(rand.New(rand.NewSource(m.foldSeed)), n, &c)
+}
+
+// foldedKeys counts the joined keys toGo writes for n.
+func (m *modes) foldedKeys(n *model.Node) int {
+	c := 0
+	if m.fold && m.sep != "" {
+		m.spell(rand.New(rand.NewSource(m.foldSeed)), n, &c)
+	}
+	return c
+}
+
+func (m *modes) spell(r *rand.Rand, n *model.Node, folded *int) interface{} {
+	if n == nil || !n.IsSub() {
+		return n.ToGo()
+	}
+	if len(n.D) == 0 {
+		if !n.HasA && len(n.A) == 0 {
+			return n.ToGo()
+		}
+		l := make([]interface{}, 0, len(n.A))
+		for _, v := range n.A {
+			l = append(l, m.spell(r, v, folded))
+		}
+		return l
+	}
+	out := make(map[string]interface{}, len(n.D))
+	for _, k := range n.SortedKeys() {
+		m.put(r, out, k, isNum(k), n.D[k], folded)
+	}
+	return out
+}
+
+// put writes the setting name (hasNum: one of its components is numeric) with
+// value v into out, as it is or folded with its children's names. Under
+// EnableNumKeys a numeric component of a JOINED key is read as a position (the
+// option is documented for whole keys, path.go falls back to positions for
+// names with separators; numeric segments are C20's matter): such keys are not
+// written.
+func (m *modes) put(r *rand.Rand, out map[string]interface{}, name string, hasNum bool, v *model.Node, folded *int) {
+	if v.IsSub() && len(v.D) > 0 && r.Intn(2) == 0 {
+		ok := true
+		if m.num >= 0 && numOptions[m.num].name == "EnableNumKeys(true)" {
+			ok = !hasNum
+			for k := range v.D {
+				if isNum(k) {
+					ok = false
+				}
+			}
+		}
+		if ok {
+			for _, k := range v.SortedKeys() {
+				*folded++
+				m.put(r, out, name+m.sep+k, hasNum || isNum(k), v.D[k], folded)
+			}
+			return
+		}
+	}
+	out[name] = m.spell(r, v, folded)
 }
 
 // renameNumeric turns one or two of the key names into numeric names, in both
@@ -251,6 +376,8 @@ func (m *modes) lostOptionSig(fs []fopt, i int) string {
 		}
 	}
 	switch {
+	case m.sepDecides && m.afterOtherSep(i):
+		return "field-option-ignored-when-pathsep-other-than-dot-precedes-it"
 	case m.num >= 0 && m.throughNumericName(p):
 		return "field-path-through-numeric-name-not-honoured"
 	case m.long && positionAbove1024(p):
